@@ -722,6 +722,9 @@ let rec coq_json = function
   | JObj l -> "(JObj [" ^ String.concat "; " (List.map (fun (k, j) ->
       "(" ^ (match k with KField s -> "KField " ^ coq_str s | KNum n -> "KNum " ^ coq_n n) ^ ", " ^ coq_json j ^ ")") l) ^ "])"
 let coq_ord = function None -> "None" | Some Lt -> "(Some Lt)" | Some Eq -> "(Some Eq)" | Some Gt -> "(Some Gt)"
+(* evaluations of the extracted SPECIFICATIONS by the monitors, sampled for the in-kernel cross-check *)
+let spec_case_hook : (string -> unit) ref = ref (fun _ -> ())
+
 let coq_case (f : string) (a : sx list) : string option =
   try
     (match f, a with
